@@ -22,6 +22,7 @@ EXPLANATION = (
     "list; several: a dict keyed by collector id). Error discipline: no handler on the run path swallows an exception. "
     "Argument validation raises before any work. Not decided: OS scheduling and Pool delivery (trusted library).")
 EXPLANATION += (" Collector.__init__ allocates the records list unconditionally on every path; Pool() receives the caller's `processes` unchanged.")
+EXPLANATION += (" The pool is a pool of processes (not multiprocessing.dummy / ThreadPool). Premise: C05's clean_up rules.")
 ASSUMPTIONS = ["multiprocessing.Pool.imap* deliver every result once and re-raise worker exceptions in the parent",
                "C14 (the product list) and C02 (one step per Model.execute())"]
 
@@ -188,6 +189,10 @@ def run(cx: Cx):
         cx.inconclusive('R-GUARD', '_run_model_for_batch returns', f"branches found: {sorted(seen)}", where=cx.where(runf), function=runf.qualname)
 
     check_no_swallow(cx, [BR, RUN, BATCH + '_build_model_from_kwargs'])
+    # a healthy execution is not failed by the package's own systems: a collector retired with clean_up() really leaves the registry
+    # (one that only leaves the queue makes the re-registration of its id raise in every run that swaps collectors)
+    from .common import include_premises
+    include_premises(cx, ['C05'], 'collectors are removed from a model the way every system is', only=lambda o: 'clean_up' in o.key)
     # the records a run hands back are its own: every collector object starts with a list allocated for it alone (a list found
     # on the object - hasattr also finds one declared in a subclass body - is shared by all collectors of that class in the process)
     from .common import COLL
@@ -223,7 +228,8 @@ def run(cx: Cx):
     for p in cx.walker.paths(fn, WalkOptions(unroll=0, callee_raises=False)):
         if p.end == 'raise' and p.last.data.get('direct') and p.last.data.get('exc') == 'AttributeError':
             if compare(p.cond, f_not(valid)) is None or compare(p.cond, f_not(valid2)) is None:
-                if not [e for e in p.events if e.kind == 'call' and e.data.get('target_kind') in ('pkg', 'unknown') and not e.data.get('full_inline')]:
+                if not [e for e in p.events if e.kind == 'call' and e.data.get('target_kind') in ('pkg', 'unknown') and not e.data.get('full_inline')
+                        and not (e.data.get('targets') and all(cx.walker.is_new_function(t) for t in e.data['targets']))]:
                     found = True
     if found:
         cx.ok('R-GUARD', 'collectors must be None / str / Iterable, rejected before any work', where=cx.where(fn), function=fn.qualname)
